@@ -110,6 +110,7 @@ func direct(c *Ctx, mode, req string, items []RpItem, r *RpResult) {
 		term      []byte
 		cb        bool
 		short0801 bool
+		stale     []byte // short0801: the id the code answers with (previous upload of the connection, 0 on a fresh one)
 		opt       string // "1003" / "0801": a frame of a recorded finding's class; the code's and the required behaviour are both accepted
 		rdPos     int    // index of the request's read callback among the TerminalEventer read callbacks (-1: none)
 	}
@@ -118,6 +119,7 @@ func direct(c *Ctx, mode, req string, items []RpItem, r *RpResult) {
 	var join *RpFrame
 	var absorbed []string
 	eCount := 0
+	lastMM := []byte{0, 0, 0, 0} // T0x0801.MultimediaID of the connection's handler instance
 	for _, it := range items {
 		if it.Kind == 'C' {
 			if join != nil {
@@ -170,6 +172,9 @@ func direct(c *Ctx, mode, req string, items []RpItem, r *RpResult) {
 					short0801: f.ID == 0x0801 && len(f.Body) < 36, rdPos: eCount - 1}
 				if w.short0801 {
 					w.opt = "0801" // a repaired ReplyBody may send nothing for it or the right id: neither alarms
+					w.stale = append([]byte{}, lastMM...)
+				} else if f.ID == 0x0801 {
+					lastMM = append([]byte{}, f.Body[:4]...)
 				}
 				wf = append(wf, w)
 			}
@@ -236,6 +241,11 @@ func direct(c *Ctx, mode, req string, items []RpItem, r *RpResult) {
 		}
 		if f.Frag {
 			viol("frame", fmt.Sprintf("frame %d (%s): fragment bit set without sub-package fields", k, w.what), Hx(r.Frames[k]), "unfragmented reply")
+			break
+		}
+		if w.short0801 && w.bodyKnown && !bytes.Equal(f.Body, w.body) && !bytes.Equal(f.Body, w.stale) {
+			// neither the id of the request nor the stale id of the recorded finding: not the finding's behaviour
+			viol("body", fmt.Sprintf("frame %d (%s): reply to a short 0x0801 carries neither its own id nor the id of the previous upload", k, w.what), Hx(f.Body), Hx(w.body)+" (or, known finding, "+Hx(w.stale)+")")
 			break
 		}
 		if w.short0801 && w.bodyKnown && !bytes.Equal(f.Body, w.body) {
@@ -426,7 +436,7 @@ func (g *gen) body(id uint16, v2019 bool, bcd []byte) []byte {
 		}
 		return b
 	case 0x0801:
-		if r.Intn(4) == 0 {
+		if r.Intn(12) == 0 { // the input class of finding C06/0801-short-body (the small-scope runs always have it)
 			return g.rbytes(r.Intn(36))
 		}
 		return g.rbytes(36 + r.Intn(30))
@@ -578,6 +588,14 @@ func (g *gen) conversation(n int, withLockstep bool) []string {
 	return append(toks, g.barrier())
 }
 
+// the body every probed id is sent with: 36 bytes, first byte 30 - a well-formed 0x0801 (36 bytes and more) and a
+// well-formed 0x1212 (6 + 30), so that the probe of all ids stays outside the input classes of the recorded findings
+func probeBody(g *gen) []byte {
+	b := g.rbytes(36)
+	b[0] = 30
+	return b
+}
+
 func main() { Main("C06", c06) }
 
 func c06(c *Ctx) {
@@ -622,7 +640,7 @@ func c06(c *Ctx) {
 	}
 	c.Count("rtable ids:65536")
 	probe := func(v2019 bool) {
-		f := RpFrame{ID: 0, Serial: g.serial(), BCD: g.uniquePhone(0x98, v2019)}
+		f := RpFrame{ID: 0, Serial: g.serial(), BCD: g.uniquePhone(0x98, v2019), Body: probeBody(g)}
 		if v2019 {
 			f.Ver = 1
 		}
@@ -636,7 +654,7 @@ func c06(c *Ctx) {
 	if !quick {
 		probe(true)
 	} else { // 2019 layout: the registered ids and their neighbours
-		f := RpFrame{ID: 0, Ver: 1, Serial: g.serial(), BCD: g.uniquePhone(0x98, true)}
+		f := RpFrame{ID: 0, Ver: 1, Serial: g.serial(), BCD: g.uniquePhone(0x98, true), Body: probeBody(g)}
 		t := Hx(f.Wire())
 		var toks []string
 		for _, lo := range []int{0, 0x0100, 0x0200, 0x0700, 0x0800, 0x1000, 0x1200, 0x8000, 0x8100, 0x8800, 0x9000, 0x9100, 0x9200} {
